@@ -163,7 +163,10 @@ def main(replay=None):
         pair_evals = pairs_check(run, drv, himpl, tab, stack, P)
         cases += D.load_corpus(PID)
         for i in range(40000 if thorough else 4000):
-            cases.append(D.Case("map", 6, g.map_history(nkeys=rng.choice([None, None, None, 14, 30]))))
+            if i % 6 == 5:
+                cases.append(D.Case("nestedkey", 6, g.nested_key_history()))
+            else:
+                cases.append(D.Case("map", 6, g.map_history(nkeys=rng.choice([None, None, None, 14, 30]))))
 
     res = D.run_cases(run, cases, drv, himpl, "000000")
     kinds, distinct, samples = {"pairs": len(P) * len(P) * 2}, set(), []
@@ -211,7 +214,7 @@ def main(replay=None):
                        "nil/NaN-free values, transitivity over all triples, == vs isEqualTo up to case, equal => found are demanded "
                        "of the implementation and every entry is compared with the model; (b) HashMap histories (<= 30 operations: "
                        "set get deleteAt in count keys createHashMapFromArray +copy isEqualTo, keys from a pool incl. the above, "
-                       "arrays mutated after use as key, arrays handed out by keys mutated, 1..30 distinct keys to cross rehash "
+                       "arrays mutated after use as key, key arrays whose nested array / HashMap (depth 1-2) is changed in place through another reference between two uses of the same key object, arrays handed out by keys mutated, 1..30 distinct keys to cross rehash "
                        "thresholds) compared operation by operation with the model, whose HashMap cell is the reference "
                        "dictionary; evaluations = pair comparisons + triples + operations; non-trivial = pairs of distinct "
                        "objects, histories with >= 8 operations that mutate a key array after insertion") % len(P)
